@@ -21,12 +21,15 @@ const shimImport = `"github.com/onflow/crypto/zzverif/vsched"`
 
 // file -> function names to instrument ("*" = every function with a receiver whose type name has the given prefix)
 var targets = map[string][]string{
-	"bls_thresholdsign.go": {"recv:blsThresholdSignature"},
-	"hash/kmac.go":         {"ComputeHash", "SumHash", "Reset", "Size"},
-	"bls.go":               {"Sign", "Verify", "PublicKey", "computePublicKey", "Encode", "checkBLSHasher", "opt:generatePrivateKey", "opt:decodePrivateKey", "opt:decodePublicKey", "opt:decodePublicKeyCompressed"},
-	"bls_multisig.go":      {"BLSGeneratePOP", "BLSVerifyPOP", "AggregateBLSPublicKeys", "VerifyBLSSignatureOneMessage", "VerifyBLSSignatureManyMessages", "BatchVerifyBLSSignaturesOneMessage"},
-	"spock.go":             {"SPOCKProve", "SPOCKVerifyAgainstData", "SPOCKVerify"},
-	"ecdsa.go":             {"Sign", "Verify", "signHash", "verifyHash", "PublicKey", "opt:generatePrivateKey", "opt:decodePrivateKey", "opt:rawDecodePrivateKey", "opt:decodePublicKey", "opt:rawDecodePublicKey", "opt:decodePublicKeyCompressed"},
+	// named functions are ANCHORS (the build fails loudly if one disappears); "*" additionally
+	// instruments every other function of the file, so that helpers introduced by a change are
+	// interleavable like the functions that call them
+	"bls_thresholdsign.go": {"recv:blsThresholdSignature", "*"},
+	"hash/kmac.go":         {"ComputeHash", "SumHash", "Reset", "Size", "*"},
+	"bls.go":               {"Sign", "Verify", "PublicKey", "computePublicKey", "Encode", "checkBLSHasher", "*"},
+	"bls_multisig.go":      {"BLSGeneratePOP", "BLSVerifyPOP", "AggregateBLSPublicKeys", "VerifyBLSSignatureOneMessage", "VerifyBLSSignatureManyMessages", "BatchVerifyBLSSignaturesOneMessage", "*"},
+	"spock.go":             {"SPOCKProve", "SPOCKVerifyAgainstData", "SPOCKVerify", "*"},
+	"ecdsa.go":             {"Sign", "Verify", "signHash", "verifyHash", "PublicKey", "*"},
 }
 
 func die(f string, a ...any) {
@@ -61,11 +64,14 @@ func instrument(repo, rel string, names []string) (string, int) {
 	}
 	want := map[string]bool{}
 	optional := map[string]bool{}
+	all := false
 	prefix := ""
 	for _, n := range names {
 		switch {
 		case strings.HasPrefix(n, "recv:"):
 			prefix = strings.TrimPrefix(n, "recv:")
+		case n == "*":
+			all = true
 		case strings.HasPrefix(n, "opt:"):
 			// instrumented when present; a tree without it is not an error (not an anchor)
 			optional[strings.TrimPrefix(n, "opt:")] = true
@@ -92,7 +98,7 @@ func instrument(repo, rel string, names []string) (string, int) {
 		if prefix != "" && strings.HasPrefix(recvName(fd), prefix) {
 			sel = true
 		}
-		if optional[fd.Name.Name] {
+		if optional[fd.Name.Name] || (all && fd.Name.Name != "init") {
 			sel = true
 		}
 		if !sel {
